@@ -10,7 +10,7 @@ from harness.core import OR, PROVED, REFUTED, UNKNOWN, ERROR, MISSING
 from harness import loader
 
 RLIMIT = int(os.environ.get("PYVC_RLIMIT", "40000000"))
-TIMEOUT_MS = int(os.environ.get("PYVC_TIMEOUT_MS", "120000"))
+TIMEOUT_MS = int(os.environ.get("PYVC_TIMEOUT_MS", "30000"))
 
 
 # ------------------------------------------------------------------------------- type declarators
@@ -324,6 +324,20 @@ def _check(hyps, goal, timeout_ms=TIMEOUT_MS, rlimit=RLIMIT):
     return r, s, dt
 
 
+def _has_quant(t) -> bool:
+    seen = set()
+    todo = [t]
+    while todo:
+        x = todo.pop()
+        if x.get_id() in seen:
+            continue
+        seen.add(x.get_id())
+        if z3.is_quantifier(x):
+            return True
+        todo.extend(x.children())
+    return False
+
+
 def _cvc5_check(smt2: str, timeout_s=60):
     import subprocess, tempfile
     with tempfile.NamedTemporaryFile("w", suffix=".smt2", delete=False, dir=os.environ.get("VERIF_TMP", None)) as f:
@@ -440,7 +454,20 @@ def verify(contract: Contract, tier="quick", callee_contracts=None) -> list[OR]:
                     o.witness = hit.get("input", o.witness)
         else:
             o.detail = f"z3: {s.reason_unknown()}"
-            if tier == "thorough":
+            # refutation mode (DESIGN 4.2): drop quantified hypotheses (their ground instances are already among the
+            # hypotheses); a model of the rest is only a *candidate*, reported if a real failing input is found
+            ground = [h for h in vc.hyps if not _has_quant(h)]
+            if len(ground) < len(vc.hyps) or True:
+                r2, s2, dt2 = _check(ground, vc.goal, timeout_ms=min(TIMEOUT_MS, 20000))
+                if r2 == z3.sat and contract.search_fn is not None:
+                    try:
+                        hit = contract.search_fn()
+                    except Exception as ex:
+                        hit = None
+                    if hit:
+                        o.status, o.replay, o.witness = REFUTED, hit, hit.get("input")
+                        o.detail = "candidate model (quantifier-free hypotheses) confirmed by bounded search on the real code"
+            if o.status == UNKNOWN and tier == "thorough":
                 res = _cvc5_check(s.sexpr())
                 if res == "unsat":
                     o.status, o.backend = PROVED, "cvc5"
@@ -455,10 +482,13 @@ def verify(contract: Contract, tier="quick", callee_contracts=None) -> list[OR]:
             continue
         ok = False
         for vc in group:
+            # quantified hypotheses are frame axioms over fresh arrays (conservative extensions), so a model of the
+            # quantifier-free hypotheses is enough to show that the path is not vacuous
             s = z3.Solver()
-            s.set("timeout", 20000)
+            s.set("timeout", 10000)
             for h in vc.hyps:
-                s.add(h)
+                if not _has_quant(h):
+                    s.add(h)
             s.add(vc.goal)
             if s.check() == z3.sat:
                 ok = True
@@ -469,7 +499,7 @@ def verify(contract: Contract, tier="quick", callee_contracts=None) -> list[OR]:
         # must-fail twin: the negated postcondition must be refuted on some path
         refuted = False
         for vc in group:
-            r, s, dt = _check(vc.hyps, z3.Not(vc.goal), timeout_ms=20000)
+            r, s, dt = _check([h for h in vc.hyps if not _has_quant(h)], z3.Not(vc.goal), timeout_ms=10000)
             if r == z3.sat:
                 refuted = True
                 break
